@@ -200,6 +200,11 @@ def rule_acceptance(ctx, rid):
             kw = dict(acc[0][2][0][3])
             want_phase = ('sub', None, ('tuple', (sl, col)))
             pt = kw.get('phase')
+            # X[:, c][s] is X[s, c]
+            if pt is not None and pt[0] == 'sub' and pt[1][0] == 'sub' and pt[1][2][0] == 'tuple' \
+                    and len(pt[1][2][1]) == 2 and pt[1][2][1][0][0] == 'slice' \
+                    and all(is_c(x) and x[1] is None for x in pt[1][2][1][0][1:4]) and pt[2][0] != 'tuple':
+                pt = ('sub', pt[1][1], ('tuple', (pt[2], pt[1][2][1][1])))
             if not (pt is not None and pt[0] == 'sub' and pt[2] == ('tuple', (sl, col))):
                 bad = (bb, 'criteria are evaluated on %s, not on the labelled slice %s' % (show(pt)[:50], show(sl)[:40]))
             if kw.get('phase_edge') != S('phase_edge'):
@@ -320,6 +325,44 @@ def rule_forwarding(ctx, rid):
         lam = f[0] == 'lambda' and 'is_good' in f[1]
         if (d is not None and d[0] == IS_GOOD) or lam:
             target = (bound, env, node, d, f)
+    # the flag uses the SAME criteria as the labelling routine: apart from the tolerance, every criteria parameter
+    # bound in the stored function keeps is_good's own default (the container's `mode` selects how cycles are cut
+    # for the metrics, not which phase window the documented criteria use)
+    if target is not None:
+        bound, env, node, d, f = target
+        isg = P.func(IS_GOOD)
+        c = 'stored criteria function binds no criteria parameter other than the tolerance away from its default'
+        extra = []
+        if d is not None:
+            for k, v in sorted(d[2].items()):
+                if k in params:
+                    continue
+                dn = isg.defaults.get(k)
+                same = dn is not None and is_c(v) and isinstance(dn, ast.Constant) and dn.value == v[1] \
+                    and type(dn.value) is type(v[1])
+                if not same:
+                    extra.append('%s=%s' % (k, show(v)[:40]))
+            if len(d[1]) > 1:
+                extra.append('%d positional argument(s) after the phase' % (len(d[1]) - 1))
+        elif f[0] == 'lambda':
+            try:
+                for cnode in ast.walk(ast.parse(f[1], mode='eval').body):
+                    if isinstance(cnode, ast.Call) and unparse(cnode.func).split('.')[-1] == 'is_good':
+                        for k in cnode.keywords:
+                            dn = isg.defaults.get(k.arg)
+                            if k.arg in params or k.arg is None:
+                                continue
+                            if not (isinstance(k.value, ast.Constant) and isinstance(dn, ast.Constant)
+                                    and dn.value == k.value.value and type(dn.value) is type(k.value.value)):
+                                extra.append('%s=%s' % (k.arg, unparse(k.value)[:40]))
+            except SyntaxError:
+                pass
+        if extra:
+            ctx.violation(rid, fi, c, 'the per-cycle quality flag is computed with %s: it then follows other criteria '
+                          'than the good-cycle labelling (which calls is_good with the tolerance only)'
+                          % ', '.join(extra), node=node, found=show(f)[:80])
+        else:
+            ctx.passed(rid, fi, c, node=node)
     for p in params:
         c = 'container parameter %s reaches the per-cycle criteria' % p
         if target is None:
